@@ -89,11 +89,13 @@ def SentOK (s : Sent) : Prop :=
   s.tags.length = s.n ∧ s.deps.length = s.n ∧ (∀ row ∈ s.deps, row.length = s.n + 1)
   ∧ (∀ row ∈ s.tags, ∀ row' ∈ s.tags, row.length = row'.length) ∧ (∀ row ∈ s.tags, row ≠ [])
 
-/-- what is assumed of `std::priority_queue`: it hands out an element of maximal priority and
-    keeps all the others (any tie-breaking) -/
+/-- what is assumed of the agenda (`std::priority_queue`): `pop` hands out an element of maximal
+    priority and keeps all the others (any tie-breaking, any internal arrangement), `push` adds
+    exactly the given items -/
 def PickOK (pick : Pick) : Prop :=
-  (pick [] = none) ∧
-  ∀ l, l ≠ [] → ∃ it rest, pick l = some (it, rest) ∧ (it :: rest).Perm l ∧ ∀ o ∈ l, o.prio ≤ it.prio
+  (pick.pop [] = none) ∧
+  (∀ l, l ≠ [] → ∃ it rest, pick.pop l = some (it, rest) ∧ (it :: rest).Perm l ∧ ∀ o ∈ l, o.prio ≤ it.prio) ∧
+  (∀ new old, (pick.push new old).Perm (new ++ old))
 
 /-- all rules share one head direction (as both shipped grammars do) -/
 def HeadUniform (g : Grammar) : Prop :=
